@@ -278,11 +278,15 @@ pub struct IoOpts {
     /// extra chance that a build's outputs include the command resource `ver` (the same command
     /// text in every project directory)
     pub cmd_output_pct: usize,
+    /// chance that a build writes one of its outputs inside its own declared input directory
+    /// (only for histories: in watch sessions the version-stamp oracle is not defined for a
+    /// script that reads its own previous output)
+    pub own_output_inside_input_pct: usize,
 }
 
 impl Default for IoOpts {
     fn default() -> Self {
-        IoOpts { multi_project_pct: 40, max_targets: 5, cmd_pct: 25, cmd_output_pct: 0 }
+        IoOpts { multi_project_pct: 40, max_targets: 5, cmd_pct: 25, cmd_output_pct: 0, own_output_inside_input_pct: 0 }
     }
 }
 
@@ -338,6 +342,7 @@ pub fn gen_io(rng: &mut Rng, o: &IoOpts) -> Scenario {
     // which projects can reference which (through the import relation, transitively loaded)
     let can_ref = |from: usize, to: usize, projects: &Vec<Project>| -> bool { from == to || projects[from].imports.iter().any(|i| i.1 == to) || (from == 0 && projects.iter().any(|_| true) && to > 0) };
     let total = rng.range(2, o.max_targets.max(2));
+    let long_names = rng.chance(3);
     let mut files: Vec<FileSpec> = vec![];
     let mut vars = BTreeMap::new();
     // targets are created bottom-up: later targets may consume earlier ones; higher projects
@@ -345,8 +350,9 @@ pub fn gen_io(rng: &mut Rng, o: &IoOpts) -> Scenario {
     let mut created: Vec<(usize, String)> = vec![];
     for k in 0..total {
         let pi = if np == 1 { 0 } else { (np - 1) - (k * np / total).min(np - 1) };
-        // reuse target names across projects on purpose
-        let name = format!("t{}", projects[pi].targets.len());
+        // reuse target names across projects on purpose; now and then a project's names are
+        // long and differ only at the very end
+        let name = if long_names { format!("{}_t{}", "l".repeat(150), projects[pi].targets.len()) } else { format!("t{}", projects[pi].targets.len()) };
         let kind = match rng.weighted(&[88, 6, 6]) {
             1 => Kind::Service,
             2 => Kind::Aggregate,
@@ -423,6 +429,13 @@ pub fn gen_io(rng: &mut Rng, o: &IoOpts) -> Scenario {
                         // the directory, with the content and time stamp of what it points to
                         files.push(FileSpec { path: format!("{}/shared/{}-profile.cfg", pdir, name), kind: FileKind::File(format!("{} {} profile v0\n", pdir, name)) });
                         files.push(FileSpec { path: format!("{}/{}/profile.c", pdir, d), kind: FileKind::Symlink(format!("../../shared/{}-profile.cfg", name)) });
+                    }
+                    if kind == Kind::Build && rng.chance(o.own_output_inside_input_pct) {
+                        // the target writes one of its outputs INSIDE its own declared input
+                        // directory (generated sources next to hand-written ones)
+                        let out = format!("{}/built/gen.c", d);
+                        t.writes.push(out.clone());
+                        t.output.push(Res::Paths { paths: vec![format!("{}/built", d)], extensions: None });
                     }
                     if rng.chance(10) {
                         // a tool's control pipe lying in the sources: not a regular file
